@@ -41,6 +41,19 @@ pub fn check(c: &Case) -> CheckResult {
         if s1 != s2 {
             return Err(Fail::new(format!("C11:unstable-image:{}", info.name), "serializing twice gives different images"));
         }
+        // the same text through serde_json's reader and Value entry points (owned instead of
+        // borrowed strings, a tree instead of a stream): each must restore the same generator
+        for (how, what) in [(0u8, "json-reader"), (1u8, "json-value")] {
+            let alt = adapter::from_json_alt(ty, &s1, how).map_err(|e| Fail::new(format!("C11:deserialize-failed:{}:{}", info.name, what), format!("cannot deserialize the generator's own image ({}): {}", what, e)))?;
+            let mut a = alt;
+            let mut oc = o.clone_box();
+            for k in 0..3 {
+                let (x, y) = (oc.next_native(), a.next_native());
+                if x != y {
+                    return Err(Fail::new(format!("C11:restored-future:{}:{}", info.name, what), format!("generator restored through {} differs from the original at native word {}", what, k)));
+                }
+            }
+        }
         adapter::from_json(ty, &s1).map_err(|e| Fail::new(format!("C11:deserialize-failed:{}:{}", info.name, fmt), format!("cannot deserialize the generator's own image: {}", e)))?
     } else {
         let b1 = o.bincode().ok_or_else(|| Fail::inconclusive("C11:no-serde", "type has no serde"))?;
